@@ -94,6 +94,9 @@ MUTANTS = {
         ('ext-kept-without-payload', S, "                flags_u64 &= !FsOptions::INIT_EXT.bits();", "                flags_u64 &= !0;"),
         ('no-ext-marker', S, "                    out.flags |= FsOptions::INIT_EXT.bits() as u32;", "                    out.flags |= 0;"),
         ('vfs-second-init-allowed', VS, "        if self.initialized() {\n            error!(\"vfs is already initialized\");\n            return Err(Error::from_raw_os_error(libc::EINVAL));\n        }\n", ""),
+        ('pt-killpriv-wrong-capability', 'src/passthrough/sync_io.rs', "            && capable.contains(FsOptions::HANDLE_KILLPRIV_V2)", "            && capable.contains(FsOptions::HANDLE_KILLPRIV)"),
+        ('pt-dax-unconditional', 'src/passthrough/sync_io.rs', "        if capable.contains(FsOptions::PERFILE_DAX) {", "        if true {"),
+        ('pt-no-opendir-not-requested', 'src/passthrough/sync_io.rs', "            opts |= FsOptions::ZERO_MESSAGE_OPENDIR;\n", "            \n"),
         ('vfs-writeback-not-removed', VS, "                n_opts.out_opts.remove(FsOptions::WRITEBACK_CACHE);", "                n_opts.out_opts.remove(FsOptions::ASYNC_DIO);"),
     ],
     'C14': [
